@@ -323,29 +323,27 @@ func encodeCfg(cfg *genesis.GenesisConfig) string {
 	return sb.String()
 }
 
-// checkReal runs the real validators: CheckGenesis as a whole and the five exported validators in its order.
+// checkReal: the verdict of the real CheckGenesis; on refusal the first of the five exported validators (in the
+// order CheckGenesis calls them) that refuses.
 func checkReal(cfg *genesis.GenesisConfig) (verdict string) {
 	defer func() {
 		if r := recover(); r != nil {
 			verdict = "panic"
 		}
 	}()
-	whole := genesis.CheckGenesis(cfg)
-	first := "ok"
+	if genesis.CheckGenesis(cfg) == nil {
+		return "ok"
+	}
 	for _, v := range []struct {
 		n string
 		f func(*genesis.GenesisConfig) error
 	}{{"fields", genesis.CheckFieldsExist}, {"plasma", genesis.CheckPlasmaInfo}, {"swap", genesis.CheckSwapAccount},
 		{"pillar", genesis.CheckPillarBalance}, {"supply", genesis.CheckTokenTotalSupply}} {
 		if err := v.f(cfg); err != nil {
-			first = "reject " + v.n
-			break
+			return "reject " + v.n
 		}
 	}
-	if (whole == nil) != (first == "ok") {
-		return "inconsistent-validators " + first
-	}
-	return first
+	return "reject none-of-the-validators"
 }
 
 // ledgerAfterGenesis inserts the genesis of cfg into a fresh in-memory chain and returns the balance maps of addrs.
@@ -435,6 +433,17 @@ func monitorAccepted(c *Ctx, tag string, cfg *genesis.GenesisConfig) {
 	}
 	if get(types.PillarContract, types.ZnnTokenStandard).Cmp(stake) != 0 {
 		c.Fail("CheckGenesis accepted (%s) but pillar contract holds %v ZNN, pillar stakes add up to %v [%s]", tag, get(types.PillarContract, types.ZnnTokenStandard), stake, encodeCfg(cfg))
+	}
+	for _, ct := range []struct {
+		a    types.Address
+		z    types.ZenonTokenStandard
+		name string
+	}{{types.PlasmaContract, types.QsrTokenStandard, "plasma"}, {types.PillarContract, types.ZnnTokenStandard, "pillar"}} {
+		for z, v := range bal[ct.a] {
+			if z != ct.z && v.Sign() != 0 {
+				c.Fail("CheckGenesis accepted (%s) but %s contract also holds %v of token %x [%s]", tag, ct.name, v, z[:], encodeCfg(cfg))
+			}
+		}
 	}
 	for z, v := range bal[types.SwapContract] {
 		if v.Sign() != 0 {
@@ -601,6 +610,47 @@ var perturbations = []perturbation{
 		cfg.PlasmaConfig.Fusions = append(cfg.PlasmaConfig.Fusions, nil)
 		return true
 	}},
+	{"contract-token-missing", true, func(c *Ctx, cfg *genesis.GenesisConfig) bool {
+		// the contract keeps its entry but the entry no longer lists the backing token; supply adjusted so that only the
+		// contract-holding validator can notice
+		return editContractBlock(c, cfg, func(b *genesis.GenesisBlockConfig, z types.ZenonTokenStandard) (*big.Int, bool) {
+			v, ok := b.BalanceList[z]
+			if !ok || v.Sign() == 0 {
+				return nil, false
+			}
+			delete(b.BalanceList, z)
+			return new(big.Int).Neg(v), true
+		})
+	}},
+	{"contract-balance-shift", true, func(c *Ctx, cfg *genesis.GenesisConfig) bool {
+		return editContractBlock(c, cfg, func(b *genesis.GenesisBlockConfig, z types.ZenonTokenStandard) (*big.Int, bool) {
+			v, ok := b.BalanceList[z]
+			if !ok {
+				return nil, false
+			}
+			d := big.NewInt(int64(1 - 2*c.R.Intn(2)))
+			v.Add(v, d)
+			return d, true
+		})
+	}},
+	{"contract-extra-token", true, func(c *Ctx, cfg *genesis.GenesisConfig) bool {
+		return editContractBlock(c, cfg, func(b *genesis.GenesisBlockConfig, z types.ZenonTokenStandard) (*big.Int, bool) {
+			// give the contract some of the OTHER native token as well (zero or not: both are "extra")
+			other := types.ZnnTokenStandard
+			if z == types.ZnnTokenStandard {
+				other = types.QsrTokenStandard
+			}
+			d := big.NewInt(int64(c.R.Intn(3)))
+			b.BalanceList[other] = d
+			for _, t := range cfg.TokenConfig.Tokens {
+				if t.TokenStandard == other {
+					t.TotalSupply.Add(t.TotalSupply, d)
+					t.MaxSupply.Add(t.MaxSupply, d)
+				}
+			}
+			return big.NewInt(0), true
+		})
+	}},
 	// --- consistent up to the code's validators, but the contract-holding / supply clauses of the statement break ---
 	{"drop-plasma-contract-block", true, func(c *Ctx, cfg *genesis.GenesisConfig) bool {
 		// remove the plasma contract's entry and take its QSR out of the declared supply: all sums the validators
@@ -671,6 +721,38 @@ var perturbations = []perturbation{
 		b.BalanceList[z] = big.NewInt(0)
 		return true
 	}},
+}
+
+// editContractBlock applies f to the plasma (QSR) or pillar (ZNN) contract entry; f returns the change of the token's
+// total amount, which is mirrored in TotalSupply / MaxSupply so that CheckTokenTotalSupply stays satisfied.
+func editContractBlock(c *Ctx, cfg *genesis.GenesisConfig, f func(b *genesis.GenesisBlockConfig, z types.ZenonTokenStandard) (*big.Int, bool)) bool {
+	addr, z := types.PlasmaContract, types.QsrTokenStandard
+	if c.R.Intn(2) == 0 {
+		addr, z = types.PillarContract, types.ZnnTokenStandard
+	}
+	for _, b := range cfg.GenesisBlocks.Blocks {
+		if b.Address != addr {
+			continue
+		}
+		d, ok := f(b, z)
+		if !ok {
+			return false
+		}
+		for _, t := range cfg.TokenConfig.Tokens {
+			if t.TokenStandard == z {
+				t.TotalSupply.Add(t.TotalSupply, d)
+				t.MaxSupply.Add(t.MaxSupply, d)
+			}
+		}
+		// the token must still be given somewhere, otherwise "declared but not given" rejects for another reason
+		for _, ob := range cfg.GenesisBlocks.Blocks {
+			if _, ok := ob.BalanceList[z]; ok {
+				return true
+			}
+		}
+		return false
+	}
+	return false
 }
 
 func dropContractBlock(cfg *genesis.GenesisConfig, addr types.Address) bool {
@@ -897,7 +979,7 @@ func init() {
 				v := checkReal(pc)
 				c.Emit("gen-check %s | %s", encodeCfg(pc), v)
 				c.Hit("perturb:" + pt.name + ":" + strings.Fields(v)[0])
-				if v == "panic" || strings.HasPrefix(v, "inconsistent") {
+				if v == "panic" || strings.HasPrefix(v, "reject none") {
 					c.Fail("CheckGenesis %s on perturbation %s: %s", v, pt.name, encodeCfg(pc))
 					continue
 				}
